@@ -43,6 +43,7 @@ type Run struct {
 	Trace  []string       // operation-level trace
 	States map[string]bool
 	NonTrivial bool
+	SimSetup   func(*simrt.Sim) // called on every new Sim before it runs (install OnStep monitors etc.)
 	Aborted    bool // the simulation stopped (deadlock, busy-wait, step cap): nothing after it is meaningful
 	sigExtra   uint64
 	start0     time.Time
@@ -109,6 +110,9 @@ func (r *Run) Simulate(main func()) {
 		}
 	}
 	r.Sim.OnFail = func() { r.Aborted = true }
+	if r.SimSetup != nil {
+		r.SimSetup(r.Sim)
+	}
 	r.Sim.Run(main)
 	if r.Sim.Failure != "" {
 		r.Aborted = false
